@@ -206,4 +206,25 @@ def coarsenIdeal : Nat → Nat → (Nat → Rat) → Nat × (Nat → Rat)
   | 0, cur, g => (cur, g)
   | l + 1, cur, g => coarsenIdeal l (halfUp cur) (coarsen1 cur g)
 
+/-! ### a long-lived `Resize` object (fixed target shape, re-used on inputs of different shapes) -/
+
+/-- the object's options and what it could remember between calls (`cachedRatio`: a ratio of voxel counts kept from an
+earlier call — the committed code keeps nothing, `keep = false`; `keep = true` models a cache set in the first call) -/
+structure ResizeObj where
+  m1 : Nat
+  m2 : Nat
+  conservative : Bool
+  cachedRatio : Option Rat
+
+def ResizeObj.call (keep : Bool) (o : ResizeObj) (n1 n2 : Nat) (f : Nat → Nat → Rat) : ResizeObj × (Nat → Nat → Rat) :=
+  let ratio := ((n1 * n2 : Nat) : Rat) / ((o.m1 * o.m2 : Nat) : Rat)
+  let used := if keep then o.cachedRatio.getD ratio else ratio
+  ({ o with cachedRatio := some used },
+    fun j1 j2 => areaResize2 n1 n2 o.m1 o.m2 f j1 j2 * (if o.conservative then used else 1))
+
+/-- the object after a history of calls -/
+def ResizeObj.after (keep : Bool) (o : ResizeObj) : List (Nat × Nat × (Nat → Nat → Rat)) → ResizeObj
+  | [] => o
+  | (n1, n2, f) :: rest => ResizeObj.after keep (o.call keep n1 n2 f).1 rest
+
 end Darsia
